@@ -17,3 +17,22 @@ package walletmanager
 //@ requires [unlocked] !prelocked && (forall k [48]byte :: !held[k])
 //@ modifies checkedset, deniedset, tokroot, db, held, prelocked
 //@ ensures [answer] (req == nil ==> result0 == nil && result1 != nil) && (req != nil ==> result0 != nil && result1 == nil)
+
+// ---- construction: the object handed out has every collaborator the methods rely on ----
+//@ func (Parameter).apply
+//@ requires p != nil
+//@ modifies p.logLevel, p.walletManager, p.process
+
+//@ func parseAndCheckParameters
+// (the guard in the loop tests the slice, not the option: a nil option would panic; every caller passes non-nil options)
+//@ requires [options] forall i int :: 0 <= i && i < len(params) ==> params[i] != nil
+//@ ensures [err] result1 != nil ==> result0 == nil
+//@ ensures [ok] result1 == nil ==> result0 != nil && result0.walletManager != nil && result0.process != nil
+//@ loop #1
+//@ invariant [range] 0 <= _n && _n <= len(params)
+
+//@ func New
+//@ requires [options] forall i int :: 0 <= i && i < len(params) ==> params[i] != nil
+//@ modifies log
+//@ ensures [err] result1 != nil ==> result0 == nil
+//@ ensures [ok] result1 == nil ==> wiredWMHandler(result0)
